@@ -7,7 +7,7 @@ from ..flow import enumerate_paths
 from ..source import norm, const_value, walk_no_nested
 from .common import is_name, params, returns_of, single_return
 from .config_rules import check_constants
-from .units_rules import check_array_to
+from . import array_folds as af
 from .vector_rules import check_component_map, VECTOR
 
 EXPLANATION = (
@@ -27,15 +27,8 @@ ARRAY = "core/array.py::Array"
 
 def r1_r2_array_to(run, tree):
     run.rule("C08.R1", "Array.to: receiver not written; ratio old/new; result labelled new; identity shortcut; no lossy cast",
-             "D1 (rational algebra) + effect rule", "pint Quantity semantics", floor=5)
-    check_array_to(run, tree)
-    # the conversion itself goes through pint (so that incompatible dimensions raise)
-    fi = tree.method(tree.cls(ARRAY), "to")
-    uses_pint_to = any(isinstance(n, ast.Call) and isinstance(n.func, ast.Attribute) and n.func.attr == "to" and
-                       not is_name(n.func.value, params(fi)[0]) for n in walk_no_nested(fi.node))
-    run.ob(ARRAY + ".to::through-pint", uses_pint_to, fi.where(), "conversion factor %s" % (
-        "obtained from pint's Quantity.to (raises DimensionalityError for another dimension)" if uses_pint_to else
-        "not obtained through pint's .to"), "Array(1,'m').to('s') returns a number instead of raising")
+             "D7 fold of Array.to over unit relations x dtypes (unit ratios in an exact monomial algebra)", "pint Quantity semantics", floor=6)
+    af.check_to_fold(run, tree)
 
 
 def r3_vector_to(run, tree):
